@@ -46,6 +46,8 @@ func valsModule() map[string]ugo.Object {
 		"err":  &ugo.Error{Name: "E", Message: "m"},
 		"err0": &ugo.Error{},
 		"":     ugo.Int(7),
+		// attribute names that are not ASCII / not UTF-8 / longer than one length byte
+		"ключ": ugo.String("cyrillic"), "\xff\xfe": ugo.Int(255), strings.Repeat("k", 70): ugo.Int(70),
 		"fn": &ugo.Function{Name: "fn", Value: func(args ...ugo.Object) (ugo.Object, error) {
 			if len(args) != 1 {
 				return nil, ugo.ErrWrongNumArguments.NewError("want=1 got=" + strconv.Itoa(len(args)))
@@ -209,6 +211,7 @@ var stanzas = []stanza{
 		`L(%s.alias())`,
 		`L(%s.fnex(1, 2.5, "x"))`,
 		`L(%s[""])`,
+		`L([%s["ключ"], %[1]s["\xff\xfe"], %[1]s["kkkkkkkkkkkkkkkkkkkkkkkkkkkkkkkkkkkkkkkkkkkkkkkkkkkkkkkkkkkkkkkkkkkkkk"]])`,
 		`L(%s.cb(func(x, y) { return [y, x * 2] }, 21, "q"))`,
 		`L(%s.cb(%[1]s.fn, 20))`,
 		`L(%s)`,
@@ -346,6 +349,11 @@ func constExpr(rt *rapid.T) (src, kind string) {
 	case "char":
 		return charSrc(vals.Char().Draw(rt, "cc")), "char"
 	case "string":
+		if rapid.IntRange(0, 39).Draw(rt, "hugestr") == 0 {
+			// pushes the source positions of everything behind it beyond 2^15 / 2^16
+			n := rapid.SampledFrom([]int{33000, 66000}).Draw(rt, "hugelen")
+			return "len(" + strSrc(strings.Repeat("h", n)) + ")", "string"
+		}
 		if rapid.IntRange(0, 5).Draw(rt, "longstr") == 0 {
 			n := rapid.SampledFrom(longLens).Draw(rt, "strlen")
 			return strSrc(strings.Repeat("s", n)), "string"
